@@ -181,9 +181,12 @@ class DAETimeSeries:
                 array_code = base_var.v_code
 
                 if self.dae.system.Output.n > 0:
-                    indices = self.dae.system.Output.to_output_addr(base_var, check=True)
+                    # sub-indices refer to the devices of the variable, not to the stored subset
+                    indices = self.dae.system.Output.to_output_addr(base_var, check=True, a=a)
                     if len(indices) == 0:
                         continue
+                    out = np.hstack((out, self._access_array(array_code, indices)))
+                    continue
 
             else:
                 if isinstance(base_var, ExtVar):
